@@ -144,11 +144,19 @@ impl RFsmExpressionDatamodel {
                         // Pretty print the error
                         let msg = format!("Script Error:  {} => {} ", source, e);
                         error!("{}", msg);
+                        if handle_error {
+                            self.internal_error_execution();
+                        }
                         Err(msg)
                     }
                 }
             }
-            Err(err) => Err(err),
+            Err(err) => {
+                if handle_error {
+                    self.internal_error_execution();
+                }
+                Err(err)
+            }
         }
     }
 
@@ -562,8 +570,14 @@ impl Datamodel for RFsmExpressionDatamodel {
                     | Data::Null()
                     | Data::None()
                     | Data::Integer(_) => (),
-                    Data::Array(_) => return Err("Illegal Result: Can't return array".to_string()),
-                    Data::Map(_) => return Err("Illegal Result: Can't return maps".to_string()),
+                    Data::Array(_) => {
+                        self.internal_error_execution();
+                        return Err("Illegal Result: Can't return array".to_string());
+                    }
+                    Data::Map(_) => {
+                        self.internal_error_execution();
+                        return Err("Illegal Result: Can't return maps".to_string());
+                    }
                     Data::Error(err) => return Err(err.clone()),
                 }
                 Ok(r)
